@@ -78,7 +78,7 @@ def validate(ctx, module, cfgpath, recs, tag, parallel=8):
     return out
 
 
-def judge(ctx, module, cfg_for, recs, front, tag, devs=()):
+def judge(ctx, module, cfg_for, recs, front, tag, devs=(), report_devs=True):
     """cfg_for(devname|None) -> cfg path. Reports violations into ctx. Returns number rejected (strict)."""
     rej = validate(ctx, module, cfg_for(None), recs, tag)
     remaining = rej
@@ -94,6 +94,10 @@ def judge(ctx, module, cfg_for, recs, front, tag, devs=()):
                 nxt.append((i, dict(rej2)[k]))
             else:
                 sig, bad = signature(ctx.prop, front, recs[i], lno)
+                if not report_devs:
+                    # the deviation is another property's known finding; here it only explains the trace
+                    ctx.extra['explained_by_' + dev] = ctx.extra.get('explained_by_' + dev, 0) + 1
+                    continue
                 ctx.violation('%s/%s/DEV:%s' % (ctx.prop, front, dev),
                               'explained only by deviation %s; first strict rejection: %s' % (dev, sig),
                               {'kind': 'trace', 'front': front, 'rec': recs[i], 'rejected_at': lno, 'dev': dev})
